@@ -130,6 +130,7 @@ struct stub_integrand
     bool dist_x_symbolic = true;
     bool projector_optional = false;  // fork: the integrand may skip projector.add at a point
     bool key_by_coords = false;       // real engines (concrete, distinct coordinates): a point is identified by its coordinates
+    std::size_t concrete_first = 0;   // the first so many distinct points get the fixed values 1, 3, 2, 5, ... (keeps later solver queries tractable)
     mutable bool sanitize = false;    // return zero wherever the stored value is not finite ("the same points returned zero")
 
     T evaluate(hep::mc_point<T> const& p, hep::projector<T>* proj) const
@@ -149,6 +150,13 @@ struct stub_integrand
         if (it == tab->f.end())
         {
             typename stub_tables<T>::fentry e;
+            if (tab->f.size() < concrete_first)
+            {
+                static double const fixed[] = {1.0, 3.0, 2.0, 5.0, 4.0, 7.0};
+                e.f = T(fixed[tab->f.size() % 6]);
+                e.kind = V_FINITE;
+            }
+            else
             e.f = make_value<T>(*h, "f", f_kinds, false, &e.kind);
             e.ask = may_ask_weight ? (h->choose("integrand_asks_weight", 2) == 1) : false;
             e.dvk = V_FINITE;
